@@ -28,6 +28,7 @@ struct S {
     std::vector<std::string> names;
     size_t modelCols = 0;
     long rows = 0;
+    bool reverseCells = false;
     std::map<std::pair<long, long>, long> cell;    // expected codes of model cells (row, col 1-based)
 };
 
@@ -165,6 +166,7 @@ std::string doStep(S &s, const json &st, long k) {
             // addressing of the cells: all by column index, all by name, or mixed (by call number)
             bool byIndex = (k % 3 == 0) || (k % 3 == 2 && (c % 2));
             if (byIndex) cells.push_back(nix::Cell{(unsigned) ci, val(s.types[ci], stamp(k, r, c))}); else cells.push_back(nix::Cell{s.names[ci], val(s.types[ci], stamp(k, r, c))}); }
+        if (s.reverseCells) std::reverse(cells.begin(), cells.end());
         std::string o = outcome([&] { if (cells.size() == 1 && cells[0].haveName() == false) D.writeCell((nix::ndsize_t) r, cells[0].col, cells[0]); else D.writeCells((nix::ndsize_t) r, cells); });
         if (okExp) for (auto &cj : v["cols"]) s.cell[{r, cj.get<long>()}] = stamp(k, r, cj.get<long>());
         return o;
@@ -188,6 +190,10 @@ json handle(Ctx &c, const json &rec) {
     size_t mc = (size_t) c.opts.value("cols", 2L);
     s.modelCols = mc;
     size_t extra = (size_t) c.opts.value("extra_cols", 2L);
+    // by line (content hash): one line in three has NO never-written extra columns, so that a write of all model cells addresses every
+    // column of the frame; on every other line the cells of a writeCells call are handed over in reversed column order
+    { std::string key = rec["pre"].dump() + rec["step"].dump(); unsigned long h = 1469598103934665603UL; for (unsigned char ch : key) { h ^= ch; h *= 1099511628211UL; }
+      if (h % 3 == 0) extra = 0; s.reverseCells = (h / 3) % 2 == 1; }
     for (size_t i = 0; i < mc + extra; i++) { s.types.push_back(TYPES[(c.seed + 3 * i) % 7]); { static const char *NM[] = {"time", "count", "Zeta", "alpha \xc3\xa4", "col", "beta"};        // schema order is not the alphabetical order of the names
                                                        s.names.push_back(std::string(NM[(i + (size_t) c.seed) % 6]) + (i >= 6 ? std::to_string(i) : "")); } }
     s.f = nix::File::open(s.path, nix::FileMode::Overwrite);
